@@ -37,12 +37,21 @@ RULE = ("generated type-system documents: declared content (6 kinds, wrappers, d
         "extend blocks; ALL definition orders for documents of <=4 definitions, sampled orders otherwise; ignore_extensions on/off; "
         "additional_types; 38 labelled single-defect invalid documents; the public extend_schema(build(A), B, strict): generated B (new types, "
         "extensions of old and new types in every order) and a deterministic block of 36 named extension documents x strict/lax (one per "
-        "branch of _collect_extensions and per rejection of the extension pass). non-trivial = distinct document text that was built "
-        "(>=2 definitions) or rejected after parsing")
+        "branch of _collect_extensions and per rejection of the extension pass); 39 named additional_types probes (override, last-wins, transitive "
+        "closure, specified-name shadowing, extension blocks of supplied types; corr/C11_additional.py); schema directives counted per element "
+        "(build_schema and the two-phase build on one Document); 20 named in-progress probes + a targeted stream of mutually recursive input "
+        "objects with defaults and extensions, and every batch document, against the exact model of the in-progress bookkeeping "
+        "(corr/C11_inprogress.py). non-trivial = distinct document text that was built (>=2 definitions) or rejected after parsing")
 ASSUMPTIONS = [
     "type registry and directive registry are compared as sets (sorted by name): the property does not state an order of schema.types",
     "only the class of a rejection is compared (library schema/SDL/syntax error vs anything else), never messages",
-    "additional_types are closed: they reference only built-in scalars or other supplied types",
+    "additional_types are closed: they reference only built-in scalars or other supplied types; a supplied scalar parses literals as the "
+    "stand-in scalar does; python_name == name. Outside the model (measured, probe supplied-default-completed-by-other-extension, covered by the "
+    "exact model buildP): the stored default VALUES of a supplied type's own fields are completed when ANOTHER supplied input object is extended; "
+    "a default written in `extend input <supplied>` that needs a field which another `extend input <supplied>` block adds",
+    "exact model buildP (SdlInProgress.lean): the retry of `_default_value` for a default written in an extension block is evaluated by name over "
+    "the extended types unless it touches a type in progress; no theorem is about buildP, it is the executable reference for the shapes the "
+    "theorems exclude (SelfDefaults / Props/C11_hide.lean)",
     "schema validation (Schema.validate, property C13) is a parameter of the model: documents rejected by validation only are "
     "compared on the builder's result with validation disabled",
     "default literals have acyclic default dependencies (finding S1b otherwise)",
@@ -63,8 +72,10 @@ TRUSTED = [
     "were built from (schemas assembled from Python objects are outside the model); `_collect_extensions` is also read directly "
     "(private function) to compare WHAT it keeps with the model's collectExtensions",
 ]
-EXPLANATION = ("model = Sdl.lean (collect, build, extend, type map closure) + SdlExtend.lean (public extend_schema: _collect_extensions "
-               "strict/lax, new definitions, roots kept); spec = Spec/SdlSpec.lean (Declared, SdlValid)")
+EXPLANATION = ("model = Sdl.lean (collect, build, extend, type map closure) + SdlAdditional.lean (buildA: what the builder does with "
+               "additional_types; the driver's `build`) + SdlExtend.lean (public extend_schema: _collect_extensions strict/lax, new definitions, "
+               "roots kept) + SdlInProgress.lean (buildP: the extension pass with the real _extended_cache / _in_progress bookkeeping, driver op "
+               "`build_p`); spec = Spec/SdlSpec.lean (Declared, SdlValid), Props/C11_additional.lean (DeclaredWith)")
 
 
 # ---------------------------------------------------------------------------
